@@ -72,6 +72,9 @@ def compose(items, tier, r):
     vecs += by.get("Pn", [])
     vecs += by.get("Close", [])
     vecs += by.get("Token", [])
+    for it in by.get("TokenRaw", []):
+        v = dict(it)
+        vecs.append(v)
     for it in by.get("CidGen", []):
         for _ in range(8 if quick else 64):
             vecs.append(dict(it))
